@@ -306,6 +306,11 @@ def assemble(
 
     except FlipJumpException as fj_exception:
         raise fj_exception
+    except RecursionError as recursion_error:
+        raise FlipJumpAssemblerException(
+            "The source nests too deeply for python's recursion limit (an expression with hundreds of nested terms, "
+            "or macro nesting close to max_recursion_depth). Split the expression, or raise max_recursion_depth."
+        ) from recursion_error
     except Exception as unknown_exception:
         raise FlipJumpAssemblerException(
             "Unknown exception during assembling the .fj files, please report this bug"
